@@ -124,7 +124,19 @@ pub fn serde_family(m: &mut M, r: &mut Rng, n: u64) {
             let sh = *r.pick(&shapes);
             let vals: Vec<f64> = sh.iter().map(|k| if *k == "lo" { x.lo() } else { x.hi() }).collect();
             m.call("serde", "de_map", "value", Some(3), &[sl(sh), A::FL(vals.clone())]);
-            m.call("serde", "de_json", "json", Some(3), &[A::S("map".into()), sl(sh), A::FL(vals)]);
+            m.call("serde", "de_json", "json", Some(3), &[A::S("map".into()), sl(sh), A::FL(vals.clone())]);
+            // the same malformed shapes with special words in some slots (NaN / infinity / zeros cannot be
+            // written in JSON, so only through serde's value deserializer)
+            let mut v2 = vals.clone();
+            for slot in v2.iter_mut() {
+                if r.below(3) == 0 {
+                    *slot = *r.pick(&[f64::NAN, f64::INFINITY, f64::NEG_INFINITY, 0.0, -0.0]);
+                }
+            }
+            if !v2.is_empty() && r.coin() {
+                v2[0] = f64::NAN;
+            }
+            m.call("serde", "de_map", "value", Some(3), &[sl(sh), A::FL(v2)]);
             let short: Vec<f64> = if r.coin() { vec![x.hi()] } else { vec![] };
             m.call("serde", "de_seq", "value", Some(3), &[A::FL(short.clone())]);
             m.call("serde", "de_json", "json", Some(3), &[A::S("seq".into()), sl(&[]), A::FL(short)]);
